@@ -926,6 +926,12 @@ class DirectoryRecord:
 
         del self.children[index]
 
+        # The list used for Rock Ridge lookups has to forget the child too.
+        for rr_index, rr_child in enumerate(self.rr_children):
+            if rr_child is child:
+                del self.rr_children[rr_index]
+                break
+
         # We now have to check if we need to remove a logical block.
         # We have to iterate over the entire list again, because where we
         # removed this last entry may rearrange the empty spaces in the blocks
